@@ -235,8 +235,95 @@ Definition notfound_ok (i : cin) (rs : list ores) : bool :=
   | _, _ => true
   end.
 
+(* ---- the locator clauses: judged on the locator, the scripts (case input) and the observed results only;
+   the content the generator had in mind (b_content, b_consistent) plays no role.  "Data delivered as a
+   successful read has the MD5 and the size that appear in the locator." ---- *)
+
+(* every scripted 200 answer of the block declares a Content-Length.  (When a 200 answer comes without one,
+   getOrHead has nothing to compare the size hint with and HashCheckingReader checks the digest only: see
+   C03_chunked_wrong_size_delivered_refuted.  The length clauses below are therefore conditional on this
+   function of the case input.) *)
+Definition declared_resp (r : response) : bool :=
+  match r with Resp st None _ _ => negb (st =? 200)%N | _ => true end.
+Definition declared_only (bl : blockin) : bool := forallb (forallb declared_resp) (b_script bl).
+
+(* the block cache is keyed by the hash alone: what a cached read of [bl] returns may have been fetched for any
+   block of the case with that hash.  The cached-read clauses apply when all of those use the same locator and
+   declare their lengths; locators that take the empty-block short cut are left to op_ok. *)
+Definition loc_guard (i : cin) (bl : blockin) : bool :=
+  negb (empty_block_loc (b_loc bl)) &&
+  forallb (fun bl' => negb (String.eqb (loc_hash (b_loc bl')) (loc_hash (b_loc bl))) ||
+                      (String.eqb (b_loc bl') (b_loc bl) && declared_only bl')) (i_blocks i).
+
+(* the reader was read to its end and the read reported success *)
+Definition full_read (m : rmode) (rerr : err) : bool :=
+  match m, rerr with
+  | MReadAll, (EEOF | ENil) => true
+  | MWriteTo, ENil => true
+  | _, _ => false
+  end.
+
+(* a Get that returned a reader, locator not the empty block's *)
+Definition get_loc_ok (H : string -> string) (bl : blockin) (m : rmode) (size : nat) (bytes : string) (rerr cerr : err) : bool :=
+  let loc := b_loc bl in
+  (* (a) the size announced by Get is the size in the locator *)
+  match size_hint loc with Some n => size =? n | None => true end &&
+  (* (b) a complete successful read delivered bytes with the locator's digest *)
+  (negb (full_read m rerr) || String.eqb (H bytes) (loc_hash loc)) &&
+  (* (c) ... and with the locator's size *)
+  (negb (full_read m rerr && declared_only bl) || match size_hint loc with Some n => slen bytes =? n | None => true end) &&
+  (* (d) a successful partial read confirmed by Close stays inside the locator's size *)
+  match m, rerr, cerr with
+  | MReadFull k, ENil, ENil =>
+      negb (declared_only bl) || match size_hint loc with Some n => (k <=? n) && (slen bytes =? k) | None => true end
+  | _, _, _ => true
+  end.
+
+(* a cached read of k bytes at offset off that reported success *)
+Definition rd_loc_ok (H : string -> string) (loc : string) (k off : nat) (r : string * err) : bool :=
+  match snd r with
+  | ENil =>
+    match size_hint loc with
+    | Some n => (off <=? n) && (slen (fst r) =? Nat.min k (n - off)) &&
+                (negb ((off =? 0) && (n <=? k)) || String.eqb (H (fst r)) (loc_hash loc))
+    | None => negb ((off =? 0) && (slen (fst r) <? k)) || String.eqb (H (fst r)) (loc_hash loc)
+    end
+  | _ => true
+  end.
+
+Definition loc_ok (i : cin) (o : op) (r : ores) : bool :=
+  match o, r with
+  | OGet b m, RGet gerr size srv bytes rerr cerr =>
+    let bl := blk_of i b in
+    match gerr with
+    | ENil => empty_block_loc (b_loc bl) || get_loc_ok (H_of i) bl m size bytes rerr cerr
+    | _ => true
+    end
+  | OReadAt b k off, RRead bytes e =>
+    let bl := blk_of i b in negb (loc_guard i bl) || rd_loc_ok (H_of i) (b_loc bl) k off (bytes, e)
+  | OGroup g b k off, RGroup l =>
+    let bl := blk_of i b in negb (loc_guard i bl) || forallb (rd_loc_ok (H_of i) (b_loc bl) k off) l
+  | OFile _ _, RFile _ _ => true
+  | _, _ => false
+  end.
+
+Fixpoint ops_loc_ok (i : cin) (ops : list op) (rs : list ores) : bool :=
+  match ops, rs with
+  | [], [] => true
+  | o :: ops', r :: rs' => loc_ok i o r && ops_loc_ok i ops' rs'
+  | _, _ => false
+  end.
+
+(* per operation (content clauses, locator clauses): printed with a failing case, not part of the verdict *)
+Fixpoint judge_ops (i : cin) (ops : list op) (rs : list ores) : list (bool * bool) :=
+  match ops, rs with
+  | o :: ops', r :: rs' => (op_ok i o r, loc_ok i o r) :: judge_ops i ops' rs'
+  | _, _ => []
+  end.
+
 Definition spec_b (c : case) : bool :=
-  ops_ok (c_in c) (i_ops (c_in c)) (ob_res (c_obs c)) && notfound_ok (c_in c) (ob_res (c_obs c)).
+  ops_ok (c_in c) (i_ops (c_in c)) (ob_res (c_obs c)) && notfound_ok (c_in c) (ob_res (c_obs c)) &&
+  ops_loc_ok (c_in c) (i_ops (c_in c)) (ob_res (c_obs c)).
 
 Definition model_b (c : case) : bool :=
   let '(rs, st) := run_model (c_in c) in
